@@ -341,6 +341,31 @@ def c11_fitter_partial_node(f, replay):
 
 
 
+def c11_find_fittable_shallow(f, replay):
+    """C11 open finding: `Fitter.place_nodes`, when it takes only part of a fragment at a slice depth above the open
+    start (`slice_depth < open_start`), builds the new `unplaced` with the *old* `open_start` although the first node left at
+    that depth is complete; the next `Fitter.find_fittable` walks `open_start` levels down first children and dereferences
+    the `first_child` of an empty fragment (AttributeError) when that node is shallower (an empty nested list).  Upstream
+    `placeNodes` / `findFittable` do the same.  Never reached on the kernel-checked schema family; reached on the strict list
+    variant `list_item: "paragraph (ordered_list | bullet_list)?"`.  Class: a replace-family operation on a schema outside
+    the family dies with that AttributeError and the innermost frame of the traceback is `find_fittable`."""
+    if replay.get("kind") != "raises" or "'NoneType' object has no attribute 'type'" not in str(replay.get("what", "")):
+        return False
+    from . import schemas, reference
+    if replay.get("schema") in [s_.name for s_ in schemas.family()]:
+        return False
+    import traceback
+    try:
+        L = reference.lib("current")
+        reference.run_transform_op(L, reference.schema_for(L, replay), replay)
+    except AttributeError as e:
+        tb = traceback.extract_tb(e.__traceback__)
+        return bool(tb) and tb[-1].name == "find_fittable"
+    except Exception:  # noqa: BLE001
+        return False
+    return False
+
+
 def c01_insert_inside_text(f, replay):
     """C01 open finding: a replace-around step whose insertion point (`insert`) falls strictly inside a *text* node of its
     slice, in a node that is complete in the slice: `insert_into` asks `parent.can_replace(index, index, gap content)` at
